@@ -4,6 +4,10 @@ import json, os
 HERE = os.path.dirname(os.path.dirname(os.path.abspath(__file__)))
 
 CLAIMED = {
+ 'C14': ('clang AST rules: control dependence of non-NULL returns on strcmp, clamp-before-index ordering, builder/search layout and count-field agreement, integer-width lint on size variables, unconditional cache invalidation',
+         'Decides the structural necessary conditions for every typelib: each non-NULL result of the three directory lookups is control-dependent on strcmp(key, that entry\'s string) == 0 in both the indexed and the linear branch; the hash value is clamped with >= n_entries before indexing; builder and search agree on layout and both count Header.n_local_entries; no size/offset lives in fewer than 32 bits; registration always clears the negative GType cache; repository finders use these lookups.',
+         'Not decided (not applicable): perfectness of the CMPH function (vendored library), behaviour on huge key sets, concrete typelibs. Trusted: clang-14, stub GLib headers.',
+         '§4 C14'),
  'C17': ('clang AST rules: exhaustive evaluation of the two comparators over all operand orderings, guard-chain (control dependence) rules for acceptance, loop-shape and who-precedes rules for search order and dependency loading, producer/consumer separator agreement',
          'Decides for every call history the structural necessary conditions: version comparison is lexicographic on (major, minor) and candidate election is newest-first then earliest-directory (exhaustive over the 9+9 orderings, comparison-only code); success in require_internal is control-dependent on file found, namespace match, version match and registration; conflict and not-found error codes; forward first-hit search, unconditional prepend, first directory wins among equal versions; every recorded dependency is required unconditionally at the version after the last dash; the compiler joins dependencies with the separator the loader splits on.',
          'Not decided (not applicable): what concrete directories contain, which files map successfully, histories of calls. Trusted: clang-14 parser; stub GLib headers (only shapes of types/macros; g_assert does not return when false).',
